@@ -11,7 +11,6 @@ package main
 // violated or undecided, is keyed by a function, and whose function the property's anchor files
 // declare or reach (the reach of the pitfall family, pitfalls.go) is reported under this property
 // too, with the rule and property it comes from. Known findings of the home property stay there.
-// The thorough tier's replay of stored changes runs the property's own rules only.
 
 import (
 	"fmt"
@@ -24,7 +23,7 @@ import (
 
 var posInText = regexp.MustCompile(`[A-Za-z0-9_/.\-]+\.go:[0-9]+`)
 
-// sharedEnabled is switched off while the thorough tier replays stored variants.
+// sharedEnabled can switch the family off (debugging); every tier runs with it on.
 var sharedEnabled = true
 
 func (c *Ctx) allObligations() map[string][]Obligation {
